@@ -210,3 +210,64 @@ func runReplay(r *ev.Run, prop string, p Profile, path string) {
 	r.Hash("replay-a", true)
 	r.Hash("replay-b", true)
 }
+
+// floors: situations that make a run of a property's check non-trivial, with
+// the minimum number of occurrences below which the run is inconclusive.
+// The values are about a quarter of the smallest count observed over seeds
+// 1, 2, 3 and 7 in the quick tier.
+var floors = map[string]map[string]int{
+	"C01": {
+		"dedup:attach-while-queued": 50, "dedup:attach-while-executing": 50,
+		"handoff:worker-parked-in-related-invocation": 50, "handoff:worker-parked-in-same-invocation": 15,
+		"completion:wrong-digest": 20, "kill:while-queued": 20, "kill:while-executing": 8,
+		"timeout:worker-while-executing": 25, "retry:on-largest-with-several-operations": 8,
+		"synchronize:cancelled-while-blocked": 40, "resend:task-sent-to-its-worker-again": 50, "stress-round": 6,
+	},
+	"C02": {
+		"send-blocked:completed-meanwhile": 15, "cancel:raced-with-stage-change": 5,
+		"reattach:after-completion-before-cleanup": 40, "reattach:unknown-or-cleaned-up-operation": 20,
+		"reattach:operation-removed-during-authorization": 4, "update-timer:tick-without-change": 1000,
+		"kill:while-queued": 30, "timeout:worker-while-executing": 30, "retry:on-largest-size-class": 20,
+		"scenario:retry-budget-after-size-class-fall-back": 3, "stress-round": 6,
+	},
+	"C03": {
+		"dedup:attach-while-queued": 80, "dedup:attach-while-executing": 80, "dedup:attach-during-retry-on-largest": 4,
+		"dedup:same-invocation": 200, "dedup:do-not-cache-never-merged": 40,
+		"last-operation-abandoned:task-cancelled": 10, "leaver:executing-task-keeps-other-operations": 8,
+		"leaver:queued-task-keeps-other-operations": 8, "completion:task-with-several-operations": 30, "stress-round": 6,
+	},
+	"C04": {
+		"handout:choice-between-several-queued-invocations": 200, "handout:choice-between-several-queued-operations": 50,
+		"handout:score-tie-decided-by-least-recently-served": 80, "stickiness:tie-turned-at-level-0": 10,
+		"stickiness:tie-turned-at-level-1": 7, "stickiness:retained": 60, "stickiness:score-tie-at-deeper-level": 8,
+		"handoff:worker-parked-in-related-invocation": 100, "handoff:worker-parked-in-same-invocation": 15, "stress-round": 6,
+	},
+	"C05": {
+		"routing:no-queue-after-grace-period": 40, "routing:no-queue-during-grace-period": 40,
+		"routing:shorter-prefix-matched": 30, "drain:added-while-worker-parked": 15,
+		"drain:removed-while-worker-waiting": 10, "drain:drained-worker-skips-queued-work": 25,
+		"terminate:parked-worker-woken": 20, "synchronize:worker-created-platform-queue": 15,
+		"timeout:size-class-queue-without-workers": 10, "stress-round": 6,
+	},
+	"C06": {
+		"timeout:worker-while-executing": 40, "timeout:worker-while-idle": 200, "timeout:operation-without-waiters": 400,
+		"timeout:size-class-queue-without-workers": 20, "retry-limit:task-failed-after-too-many-attempts": 3,
+		"leak-check:executed": 100, "synchronize:idle-timeout": 100, "synchronize:cancelled-while-blocked": 80,
+		"terminate:waits-for-executing-task": 12, "last-operation-abandoned:task-cancelled": 100, "stress-round": 6,
+	},
+	"C07": {
+		"background:scheduled": 10, "background:refused-disabled": 3, "background:refused-by-limit": 3,
+		"retry:on-largest-size-class": 15, "kill:while-queued": 20, "dedup:attach-while-queued": 60,
+		"completion:success": 30, "completion:failure-reported-by-worker": 30, "leak-check:executed": 50, "stress-round": 3,
+	},
+}
+
+// DeclareFloors registers the situation floors of a property (not in replay mode).
+func DeclareFloors(r *ev.Run, prop string) {
+	if r.ReplayFile() != "" {
+		return
+	}
+	for name, n := range floors[prop] {
+		r.Floor(name, n)
+	}
+}
